@@ -527,6 +527,353 @@ func runTypeRel(c *Ctx, r *Reporter) {
 			}
 		}
 	}
+	// combineTypes: an empty literal contributes nothing — but only to a combined type of its own kind. Every path
+	// from the true edge of a wildcard test (t == EMPTY_*, combinedT == EMPTY_*) that goes on combining (reaches the
+	// loop header again or returns something other than `any`) has passed the edge on which the two names were equal.
+	if fd := FindFunc(pkg, "combineTypes"); fd != nil {
+		sf := p.SSAFunc(fd.Obj)
+		type edge struct {
+			b   *ssa.BasicBlock
+			idx int
+		}
+		nameEqAt := map[*ssa.BasicBlock]int{} // block -> successor index on which the names are equal
+		for _, b := range sf.Blocks {
+			if len(b.Instrs) == 0 {
+				continue
+			}
+			ifi, ok := b.Instrs[len(b.Instrs)-1].(*ssa.If)
+			if !ok {
+				continue
+			}
+			bo, ok := ifi.Cond.(*ssa.BinOp)
+			if !ok || !isNameLoad(bo.X) || !isNameLoad(bo.Y) {
+				continue
+			}
+			switch bo.Op {
+			case token.NEQ:
+				nameEqAt[b] = 1
+			case token.EQL:
+				nameEqAt[b] = 0
+			}
+		}
+		returnsAny := func(b *ssa.BasicBlock) bool {
+			if len(b.Instrs) == 0 {
+				return false
+			}
+			ret, ok := b.Instrs[len(b.Instrs)-1].(*ssa.Return)
+			if !ok || len(ret.Results) != 1 {
+				return false
+			}
+			u, ok := ret.Results[0].(*ssa.UnOp)
+			if !ok {
+				return false
+			}
+			g, ok := u.X.(*ssa.Global)
+			return ok && g.Name() == "ANY_TYPE"
+		}
+		k := 0
+		for _, b := range sf.Blocks {
+			if len(b.Instrs) == 0 {
+				continue
+			}
+			ifi, ok := b.Instrs[len(b.Instrs)-1].(*ssa.If)
+			if !ok {
+				continue
+			}
+			bo, ok := ifi.Cond.(*ssa.BinOp)
+			if !ok || (bo.Op != token.EQL && bo.Op != token.NEQ) {
+				continue
+			}
+			g := ""
+			for _, side := range []ssa.Value{bo.X, bo.Y} {
+				if u, ok := side.(*ssa.UnOp); ok {
+					if gl, ok := u.X.(*ssa.Global); ok && wild[gl.Name()] {
+						g = gl.Name()
+					}
+				}
+			}
+			if g == "" {
+				continue
+			}
+			k++
+			matchEdge := 0
+			if bo.Op == token.NEQ {
+				matchEdge = 1
+			}
+			// already behind a name-equality edge?
+			safe := false
+			for nb, idx := range nameEqAt {
+				if edgeDominates(nb, idx, b) {
+					safe = true
+				}
+			}
+			bad := ""
+			if !safe {
+				hdr := loopHeaderOf(b)
+				seen := map[*ssa.BasicBlock]bool{}
+				var walk func(x *ssa.BasicBlock)
+				walk = func(x *ssa.BasicBlock) {
+					if seen[x] || bad != "" {
+						return
+					}
+					seen[x] = true
+					if x == hdr {
+						bad = "the loop goes on combining"
+						return
+					}
+					if len(x.Instrs) > 0 {
+						if _, isRet := x.Instrs[len(x.Instrs)-1].(*ssa.Return); isRet {
+							if !returnsAny(x) {
+								bad = "a type other than any is returned"
+							}
+							return
+						}
+					}
+					if idx, ok := nameEqAt[x]; ok {
+						walk(x.Succs[1-idx]) // only the edge on which the names differ stays unsafe
+						return
+					}
+					for _, sx := range x.Succs {
+						walk(sx)
+					}
+				}
+				walk(b.Succs[matchEdge])
+			}
+			r.Check(bad == "", fmt.Sprintf("%s#wildcard[%d]:%s", fd.QName(), k, g), p.Rel(condPos(ifi.Cond)),
+				"an empty literal is absorbed only by a combined type of its own kind",
+				"behind the test against "+g+" "+bad+" without the two type names having been compared: `[[1] {}]` or `[{a:1} []]` then get the element type of the first element ([][]num, []{}num) instead of any, "+
+					"and the other element is used as a value of a kind it does not have")
+		}
+		if k == 0 {
+			r.Undecided("combineTypes has no wildcard case")
+		}
+	}
+	// accepts: the dynamic type takes every value, but the none type (a call without result) is not a value: the
+	// accepting return behind the `left.Name == ANY` test lies behind the edge `right.Name != NONE`
+	if fd := FindFunc(pkg, "(*Type).accepts"); fd != nil {
+		sf := p.SSAFunc(fd.Obj)
+		constVal := func(name string) string {
+			if k, ok := pkg.Types.Scope().Lookup(name).(*types.Const); ok {
+				return k.Val().ExactString()
+			}
+			return "?"
+		}
+		anyV, noneV := constVal("ANY"), constVal("NONE")
+		isNameConstTest := func(v ssa.Value, want string) (bool, token.Token) {
+			bo, ok := v.(*ssa.BinOp)
+			if !ok || (bo.Op != token.EQL && bo.Op != token.NEQ) {
+				return false, 0
+			}
+			x, y := bo.X, bo.Y
+			if _, isConst := x.(*ssa.Const); isConst {
+				x, y = y, x
+			}
+			k, ok := y.(*ssa.Const)
+			return ok && k.Value != nil && k.Value.ExactString() == want && isNameLoad(x), bo.Op
+		}
+		n := 0
+		for _, b := range sf.Blocks {
+			if len(b.Instrs) == 0 {
+				continue
+			}
+			ifi, ok := b.Instrs[len(b.Instrs)-1].(*ssa.If)
+			if !ok {
+				continue
+			}
+			isAny, op := isNameConstTest(ifi.Cond, anyV)
+			if !isAny {
+				continue
+			}
+			anyEdge := 0
+			if op == token.NEQ {
+				anyEdge = 1
+			}
+			// accepting returns behind this edge
+			for _, ret := range returnsOf(sf) {
+				if !edgeDominates(b, anyEdge, ret.Block()) {
+					continue
+				}
+				accepts := false
+				for _, rv := range resultValues(ret, 0) {
+					if k, ok := rv.(*ssa.Const); !ok || k.Value == nil || k.Value.ExactString() != "false" {
+						accepts = true
+					}
+				}
+				if !accepts {
+					continue
+				}
+				n++
+				excluded := false
+				for d := ret.Block(); d != nil; d = d.Idom() {
+					id := d.Idom()
+					if id == nil || len(id.Instrs) == 0 {
+						continue
+					}
+					if i2, ok := id.Instrs[len(id.Instrs)-1].(*ssa.If); ok {
+						if isNone, op2 := isNameConstTest(i2.Cond, noneV); isNone {
+							e := 0
+							if op2 == token.EQL {
+								e = 1
+							}
+							if edgeDominates(id, e, ret.Block()) {
+								excluded = true
+							}
+						}
+					}
+				}
+				r.Check(excluded, fmt.Sprintf("%s#any-never-none[%d]", fd.QName(), n), p.Rel(instrPos(ret)), "the dynamic type accepts every value, and a call without result is not a value",
+					"the acceptance behind the `any` test is reachable for a right type none: `a:any` `a = noret` (a call without result) or a bare `return` in `func f:any` is accepted, and the evaluator stores or returns a value of no type")
+			}
+		}
+		if n == 0 {
+			// the case condition `a && b && (c || d)` may be lowered to a value: a phi that receives the constant false
+			// from every failed conjunct, tested once. Then: the case body is the true successor of that test; search,
+			// edge by edge and honouring the phi's constants, for a path from the true edge of the ANY test to the body
+			// that does not take the `right.Name != NONE` edge.
+			for _, b := range sf.Blocks {
+				if len(b.Instrs) == 0 {
+					continue
+				}
+				ifi, ok := b.Instrs[len(b.Instrs)-1].(*ssa.If)
+				if !ok {
+					continue
+				}
+				isAny, op := isNameConstTest(ifi.Cond, anyV)
+				if !isAny {
+					continue
+				}
+				anyEdge := 0
+				if op == token.NEQ {
+					anyEdge = 1
+				}
+				// the phi this test feeds
+				var join *ssa.BasicBlock
+				var phi *ssa.Phi
+				for _, s2 := range b.Succs {
+					for _, ins := range s2.Instrs {
+						if ph, ok := ins.(*ssa.Phi); ok {
+							if last, ok := s2.Instrs[len(s2.Instrs)-1].(*ssa.If); ok && last.Cond == ssa.Value(ph) {
+								join, phi = s2, ph
+							}
+						}
+					}
+				}
+				if join == nil {
+					continue
+				}
+				n++
+				type st struct{ b, from *ssa.BasicBlock }
+				seen := map[st]bool{}
+				reached := false
+				var walk func(x, from *ssa.BasicBlock)
+				walk = func(x, from *ssa.BasicBlock) {
+					if seen[st{x, from}] || reached {
+						return
+					}
+					seen[st{x, from}] = true
+					if x == join {
+						// value of the phi on this edge
+						for i, pb := range join.Preds {
+							if pb == from {
+								if k, ok := phi.Edges[i].(*ssa.Const); ok && k.Value != nil && k.Value.ExactString() == "false" {
+									return // the case is not taken on this edge
+								}
+							}
+						}
+						reached = true
+						return
+					}
+					if len(x.Instrs) > 0 {
+						if i2, ok := x.Instrs[len(x.Instrs)-1].(*ssa.If); ok {
+							if isNone, op2 := isNameConstTest(i2.Cond, noneV); isNone {
+								notNone := 0
+								if op2 == token.EQL {
+									notNone = 1
+								}
+								walk(x.Succs[1-notNone], x) // only the edge on which the right type IS none is of interest
+								return
+							}
+						}
+					}
+					for _, sx := range x.Succs {
+						walk(sx, x)
+					}
+				}
+				walk(b.Succs[anyEdge], b)
+				r.Check(!reached, fmt.Sprintf("%s#any-never-none[%d]", fd.QName(), n), p.Rel(condPos(ifi.Cond)), "the dynamic type accepts every value, and a call without result is not a value",
+					"the acceptance behind the `any` test is reachable for a right type none: `a:any` `a = noret` (a call without result) or a bare `return` in `func f:any` is accepted, and the evaluator stores or returns a value of no type")
+			}
+		}
+		if n == 0 {
+			r.Undecided("(*Type).accepts has no accepting case behind a test of the left name against ANY")
+		}
+	}
+	// parseBinaryExpr: the right operand's type reaches the node's type only for concatenation (the more specific of
+	// two matching array types); for every other operator the result type is the left operand's or bool
+	if fd := FindFunc(pkg, "(*parser).parseBinaryExpr"); fd != nil {
+		sf := p.SSAFunc(fd.Obj)
+		plusV := "?"
+		if k, ok := pkg.Types.Scope().Lookup("OP_PLUS").(*types.Const); ok {
+			plusV = k.Val().ExactString()
+		}
+		var dependsOnRight func(v ssa.Value, depth int, seen map[ssa.Value]bool) bool
+		dependsOnRight = func(v ssa.Value, depth int, seen map[ssa.Value]bool) bool {
+			if depth > 8 || seen[v] {
+				return false
+			}
+			seen[v] = true
+			if call, ok := v.(*ssa.Call); ok && call.Call.IsInvoke() && call.Call.Method.Name() == "Type" && loadsField(call.Call.Value, "Right") {
+				return true
+			}
+			if ins, ok := v.(ssa.Instruction); ok {
+				for _, op := range ins.Operands(nil) {
+					if *op != nil && dependsOnRight(*op, depth+1, seen) {
+						return true
+					}
+				}
+			}
+			return false
+		}
+		n := 0
+		for _, b := range sf.Blocks {
+			for _, ins := range b.Instrs {
+				st, ok := ins.(*ssa.Store)
+				if !ok {
+					continue
+				}
+				fa, ok := st.Addr.(*ssa.FieldAddr)
+				if !ok {
+					continue
+				}
+				owner, fname := fieldAddrInfo(fa)
+				if owner == nil || owner.Obj().Name() != "BinaryExpression" || fname != "T" || !dependsOnRight(st.Val, 0, map[ssa.Value]bool{}) {
+					continue
+				}
+				n++
+				guarded := false
+				for d := b; d != nil; d = d.Idom() {
+					id := d.Idom()
+					if id == nil || len(id.Instrs) == 0 {
+						continue
+					}
+					ifi, ok := id.Instrs[len(id.Instrs)-1].(*ssa.If)
+					if !ok {
+						continue
+					}
+					bo, ok := ifi.Cond.(*ssa.BinOp)
+					if !ok || bo.Op != token.EQL {
+						continue
+					}
+					if k, ok := bo.Y.(*ssa.Const); ok && k.Value != nil && k.Value.ExactString() == plusV && loadsField(bo.X, "Op") && edgeDominates(id, 0, b) {
+						guarded = true
+					}
+				}
+				r.Check(guarded, fmt.Sprintf("%s#result-type-from-right-operand[%d]", fd.QName(), n), p.Rel(instrPos(st)), "the right operand's type enters the node's type only for +",
+					"the type of a binary expression is computed from its right operand on a path that is not confined to `+`: for `*` the right operand is the count, so `[] * 3` gets the static type num (declares a num, is accepted for n:num) while it evaluates to an array")
+			}
+		}
+		r.Note("parseBinaryExpr: %d stores of the node type depend on the right operand's type", n)
+	}
 	// infer: a composite type is returned as it is only through the recursion into its element type
 	if fd := FindFunc(pkg, "(*Type).infer"); fd != nil {
 		sf := p.SSAFunc(fd.Obj)
